@@ -125,7 +125,7 @@ def r3_order_and_switch(ctx, res):
     ok = len(init) == 1 and len(sel) == 1 and len(sel[0][2]) == 1
     if ok:
         spec = next(iter(sel[0][2]))
-        ok = f'find_lexicons(lexicon={spec})' in sel[0][1] and spec.endswith(' if expand is None else expand') and '_to_lexicon' in sel[0][1]
+        ok = f'find_lexicons(lexicon={spec})' in sel[0][1] and spec.startswith('expand if expand is not None else ') and '_to_lexicon' in sel[0][1]
     ids = w.find('store', 'self._expanded_ids = tuple((_1._id for _1 in self._expanded))')
     if not ok or not ids or ids[0][2]:
         res.find(key, w.loc(), "Wordnet.__init__ no longer derives _expanded_ids from the lexicons selected by a non-empty expand specifier "
@@ -392,6 +392,12 @@ def r6_relation_lexicon_is_the_declaring_one(ctx, res):
         raise AnalysisError(f'only {n} relation query variants examined')
 
 
+def r7_dependencies_relinked(ctx, res):
+    """borrowing needs the dependency link: a dependency recorded while its provider was absent (dependent added first, provider
+    removed and added again) is re-linked whenever the provider is added - on every path of _insert_lexicon (C05-R5)."""
+    from .c05 import r5_relink
+    r5_relink(ctx, res)
+
 RULES = [
     ('C12-R1', r1_provenance, 10),
     ('C12-R2', r2_nullness, 2),
@@ -399,4 +405,5 @@ RULES = [
     ('C12-R4', r4_default_expand, 5),
     ('C12-R5', r5_paths_through_placeholders, 8),
     ('C12-R6', r6_relation_lexicon_is_the_declaring_one, 3),
+    ('C12-R7', r7_dependencies_relinked, 1),
 ]
